@@ -30,6 +30,7 @@ type c13Ask struct {
 	Policy  string        `json:"policy"` // now | inline | async | never
 	Timeout time.Duration `json:"timeout,omitempty"`
 	Latency time.Duration `json:"latency,omitempty"`
+	Retry   bool          `json:"retry_same_ask_object_after_timeout,omitempty"`
 }
 
 type c13Scenario struct {
@@ -55,6 +56,8 @@ type c13Req struct {
 	replyRet   bool
 	replyPanic string
 	replyAt    string
+	arrivals   int
+	retryOp    *Op
 }
 
 func c13f(m int) int { return m*7 + 1 }
@@ -92,6 +95,11 @@ func genC13(t *simrt.Tape, tier string) Scenario {
 			if a.Policy == "now" || a.Policy == "never" {
 				a.Latency = 0
 			}
+			if a.Via == "AskOnceWithTimeout" && a.Policy == "never" {
+				// the request is never answered; after the timeout the asker asks again with the same
+				// Ask object, and this time the actor answers at once
+				a.Retry = t.Bool(1, 2)
+			}
 			asks = append(asks, a)
 		}
 		sc.Askers = append(sc.Askers, asks)
@@ -117,7 +125,7 @@ type c13Proxy struct {
 func (p *c13Proxy) Send(m interface{}) {
 	p.a.Send(m)
 	if ask, ok := m.(*fpgo.AskDef[int, int]); ok {
-		if r := p.reqs(ask.Message); r != nil {
+		if r := p.reqs(ask.Message); r != nil && !r.haveTs {
 			r.ts = p.s.Now()
 			r.haveTs = true
 		}
@@ -149,6 +157,11 @@ func (sc *c13Scenario) Run(s *simrt.Sim) {
 		}
 		r := byMsg[ask.Message]
 		if r == nil {
+			return
+		}
+		r.arrivals++
+		if r.spec.Retry && r.arrivals >= 2 {
+			ask.Reply(c13f(ask.Message))
 			return
 		}
 		switch r.spec.Policy {
@@ -190,6 +203,15 @@ func (sc *c13Scenario) Run(s *simrt.Sim) {
 			r.op = h.Do(name, "AskOnce", r.msg, func() (interface{}, error) { return ask.AskOnce(proxy), nil })
 		case "AskOnceWithTimeout":
 			r.op = h.Do(name, "AskOnceWithTimeout", r.msg, func() (interface{}, error) { return ask.AskOnceWithTimeout(proxy, r.spec.Timeout) })
+			// (stall-free runs only: an injected stall of the actor may legitimately outlast any timeout)
+			if r.spec.Retry && sc.NoStall && r.op.Returned && r.op.Panic == "" && r.op.Err == fpgo.ErrActorAskTimeout {
+				r.retryOp = h.Do(name, "AskOnceWithTimeout-retry", r.msg, func() (interface{}, error) { return ask.AskOnceWithTimeout(proxy, 10*time.Minute) })
+				if r.retryOp.Returned && r.retryOp.Panic == "" && (r.retryOp.Err != nil || r.retryOp.Val != c13f(r.msg)) {
+					sc.extra = append(sc.extra, Violation{Clause: "timeout", Fingerprint: "retry-after-clean-timeout-fails",
+						Detail: fmt.Sprintf("request %d timed out without ever being answered; the same Ask object was then asked again and the actor replied %d at once, but the asker got %s", r.msg, c13f(r.msg), r.retryOp.String())})
+				}
+				sc.probes["retry-with-same-ask-object"]++
+			}
 		case "AskChannel":
 			r.op = h.Do(name, "AskChannel", r.msg, func() (interface{}, error) {
 				ch := ask.AskChannel(proxy)
